@@ -2,6 +2,7 @@
 // Case (see coq/C15/Model.v run_case):
 //   nopts { kind comp impl? dflt? }*   ops*
 //   kind 0 flag(store_true) 1 flag(store_false) 2 int 3 string 4 vector<int> 5 ValueMap store<int> 6 custom notifier
+//        7 ValueMap flag(store_true) 8 ValueMap flag(store_false)  (mapped_value.h factory flag(ValueMap&, FlagAction))
 //   impl?/dflt? : 0 | 1 len bytes
 //   op  1 hasExcl [nExcl ids..] nPairs { optId len bytes }*  |  2 (assignDefaults)  |  3 (fresh ParsedOptions)
 // Observation per op 1/2: err(0 | 1+type key len bytes) fault(0) parsed.size { state count varLen var.. }*
@@ -52,11 +53,23 @@ int main() {
 					case 3: v = Po::storeTo(t.s); break;
 					case 4: v = Po::storeTo(t.v); break;
 					case 5: v = Po::store<int>(vm); break;
+					case 7: v = Po::flag(vm); break;
+					case 8: v = Po::flag(vm, Po::store_false); break;
 					default: v = Po::notify(&log, &customNotify); break;
 				}
 				if (comp)      v->composing();
-				if (t.hasImpl) v->implicit(t.impl.c_str());
-				if (t.hasDflt) v->defaultsTo(t.dflt.c_str());
+				// implicit value, default and (for two thirds of the options) an argument name go through one setter (Value::desc) whose
+				// storage depends on how many were set before: attach them in an order chosen from the case (all six orders occur)
+				{
+					static const int perm[6][3] = {{0,1,2},{0,2,1},{1,0,2},{1,2,0},{2,0,1},{2,1,0}};
+					size_t sel = k * 5 + n + (size_t)t.kind + t.impl.size() * 3 + t.dflt.size();
+					const int* pm = perm[sel % 6];
+					for (int j = 0; j != 3; ++j) {
+						if (pm[j] == 0 && (sel / 6) % 3 != 0) v->arg("<x>");
+						if (pm[j] == 1 && t.hasImpl) v->implicit(t.impl.c_str());
+						if (pm[j] == 2 && t.hasDflt) v->defaultsTo(t.dflt.c_str());
+					}
+				}
 				g.addOptions()(optName((ll)k).c_str(), v, "");
 			}
 			ctx.add(g);
@@ -107,6 +120,10 @@ int main() {
 					case 4: o.add((ll)t.v.size()); for (size_t j = 0; j != t.v.size(); ++j) o.add(t.v[j]); break;
 					case 5:
 						if (vm.count(opt.name())) { o.add(1); o.add(Po::value_cast<int>(vm[opt.name()])); }
+						else o.add(0);
+						break;
+					case 7: case 8:
+						if (vm.count(opt.name())) { o.add(1); o.add(Po::value_cast<bool>(vm[opt.name()]) ? 1 : 0); }
 						else o.add(0);
 						break;
 					default: {
